@@ -66,6 +66,39 @@ pub const STATEMENTS: &[&str] = &[
     // wait for a specific child while an older child has exited and a younger one is stopped
     // (on a real kernel the younger child may be gone before the signals are sent: diagnostics of `kill` are discarded)
     "(exit 3)& pa=$!; (exit 5)& pb=$!; kill -s STOP $pb 2>&-; wait $pa; s1=$?; kill -s CONT $pb 2>&-; wait $pb; echo $s1 $?; unset pa pb s1",
+    // file offsets: a descriptor keeps its offset when the file is truncated through another one
+    // (the next write leaves a hole), duplicated descriptors share one offset, separately opened
+    // ones do not, a subshell shares the parent's offset, append mode ignores the offset
+    "exec 3>f3; echo one >&3; : > f3; echo two >&3; exec 3>&-", "exec 3>f3 4>&3; echo a >&3; echo b >&4; exec 3>&- 4>&-",
+    "exec 3>f3; exec 4>f3; echo aaaa >&3; echo b >&4; exec 3>&- 4>&-", "exec 3>>f0; : > f0; echo x >&3; exec 3>&-",
+    "exec 4<f0; (read a <&4; echo \"$a\"); read b <&4; echo \"$b\"; exec 4<&-", "exec 3<>f0; read a <&3; echo XY >&3; exec 3>&-; cat f0",
+    "echo abcdef > f1; exec 3<f1; : > f1; cat <&3; echo $?; exec 3<&-",
+    // exit statuses beyond 8 bits are truncated by the kernel
+    "(exit 300); echo $?", "(exit 256); echo $?", "{ exit 300; } & wait $!; echo $?", "st 0 | (exit 511); echo $?", "x=$(exit 257); echo $?",
+    // a child that has been waited for no longer exists
+    "(exit 3) & wait $!; kill -s TERM $! 2>&-; echo $?", "(exit 3) & wait $!; kill -0 $! 2>&-; echo $?",
+    // no descriptor left for the file being opened: the file must be neither created nor truncated
+    "ulimit -n 4; echo x 3<f0 >newf; echo $?", "echo keep > f1; ulimit -n 4; : 3<f0 >f1; echo $?; cat f1",
+    // default actions: a subshell (command traps reset) sends the signal to the whole process
+    // group; the main shell survives through its trap, the subshell dies or not (IO is left out:
+    // on Linux it is the same signal as POLL and libc's sig2str names it POLL)
+    "trap 'echo got' HUP; (kill -s HUP 0; echo alive); s=$?; case $s in 0) echo zero;; *) kill -l $s;; esac; trap - HUP",
+    "trap 'echo got' ALRM; (kill -s ALRM 0; echo alive); s=$?; case $s in 0) echo zero;; *) kill -l $s;; esac; trap - ALRM",
+    "trap 'echo got' PROF; (kill -s PROF 0; echo alive); s=$?; case $s in 0) echo zero;; *) kill -l $s;; esac; trap - PROF",
+    "trap 'echo got' PWR; (kill -s PWR 0; echo alive); s=$?; case $s in 0) echo zero;; *) kill -l $s;; esac; trap - PWR",
+    "trap 'echo got' STKFLT; (kill -s STKFLT 0; echo alive); s=$?; case $s in 0) echo zero;; *) kill -l $s;; esac; trap - STKFLT",
+    "trap 'echo got' TERM; (kill -s TERM 0; echo alive); s=$?; case $s in 0) echo zero;; *) kill -l $s;; esac; trap - TERM",
+    "trap 'echo got' USR1; (kill -s USR1 0; echo alive); s=$?; case $s in 0) echo zero;; *) kill -l $s;; esac; trap - USR1",
+    "trap 'echo got' USR2; (kill -s USR2 0; echo alive); s=$?; case $s in 0) echo zero;; *) kill -l $s;; esac; trap - USR2",
+    "trap 'echo got' VTALRM; (kill -s VTALRM 0; echo alive); s=$?; case $s in 0) echo zero;; *) kill -l $s;; esac; trap - VTALRM",
+    "trap 'echo got' INT; (kill -s INT 0; echo alive); s=$?; case $s in 0) echo zero;; *) kill -l $s;; esac; trap - INT",
+    "trap 'echo got' PIPE; (kill -s PIPE 0; echo alive); s=$?; case $s in 0) echo zero;; *) kill -l $s;; esac; trap - PIPE",
+    "trap 'echo got' URG; (kill -s URG 0; echo alive); s=$?; case $s in 0) echo zero;; *) kill -l $s;; esac; trap - URG",
+    "trap 'echo got' WINCH; (kill -s WINCH 0; echo alive); s=$?; case $s in 0) echo zero;; *) kill -l $s;; esac; trap - WINCH",
+    "trap 'echo got' CHLD; (kill -s CHLD 0; echo alive); s=$?; case $s in 0) echo zero;; *) kill -l $s;; esac; trap - CHLD",
+    "trap 'echo got' CONT; (kill -s CONT 0; echo alive); s=$?; case $s in 0) echo zero;; *) kill -l $s;; esac; trap - CONT",
+    "trap 'echo got' XCPU; (kill -s XCPU 0; echo alive); s=$?; case $s in 0) echo zero;; *) kill -l $s;; esac; trap - XCPU",
+    "trap 'echo got' QUIT; (kill -s QUIT 0; echo alive); s=$?; case $s in 0) echo zero;; *) kill -l $s;; esac; trap - QUIT",
 ];
 
 #[derive(Clone, Debug, PartialEq, Eq, Hash, Serialize, Deserialize)]
@@ -264,7 +297,7 @@ pub fn run(ctx: &Ctx, st: &mut Stats) {
     let cases = ctx.tier.pick(8_000, 400_000);
     // statements that fall into an open known finding are drawn rarely, so that most scripts
     // stay comparable
-    let tainted = |t: &str| uses_links(t) || t.contains("nodir/x") || t.contains("f0/x");
+    let tainted = |t: &str| t.contains("nodir/x") || t.contains("f0/x");
     let clean: Vec<u16> = (0..STATEMENTS.len() as u16).filter(|i| !tainted(STATEMENTS[*i as usize])).collect();
     let dirty: Vec<u16> = (0..STATEMENTS.len() as u16).filter(|i| tainted(STATEMENTS[*i as usize])).collect();
     DIFF.run_random(ctx, st, cases, move || {
